@@ -236,6 +236,23 @@ def register(T, repo):
                     cur + z3.If(k < m_len - 1, k, m_len - 1)))))
         return z3.If(m_len == 0, zbool(empty), zbool(nonempty))
     lp.body_post.append(('per-match', sub_body))
+
+    def sub_candidates(conc):
+        # the regular expression is abstracted away in the contract (only
+        # the assumed finditer contract is used); for the replay we try the
+        # literal substrings of the model's text as expressions
+        import re
+        txt = conc['i_txt']
+        seen = set()
+        for a in range(len(txt)):
+            for b in range(a + 1, len(txt) + 1):
+                e = re.escape(txt[a:b])
+                if e not in seen:
+                    seen.add(e)
+                    d = dict(conc)
+                    d['expr'] = e
+                    yield d
+    c.replay_candidates = sub_candidates
     T.empty_hints[(U + 'substitute', 93)] = 'ilist'
 
     return T
